@@ -105,8 +105,13 @@ class RasterTranslator(VPTranslator):
                 conds = []
                 for a in args[2:]:
                     t = self.expr(a, env)
+                    if t[1] == 'option Z':
+                        # `v is not None and not lower <= v <= upper`: None passes
+                        conds.append('(match %s with None => true | Some ov => (andb (Z.leb %s ov) (Z.leb ov %s)) end)'
+                                     % (t[0], lo, hi))
+                        continue
                     if t[1] != 'Z':
-                        refuse(s, 'range_check on a value that may be None')
+                        refuse(s, 'range_check on a value of type %s' % t[1])
                     conds.append('(andb (Z.leb %s %s) (Z.leb %s %s))' % (lo, t[0], t[0], hi))
                 c = conds[-1]
                 for x in reversed(conds[:-1]):
@@ -348,6 +353,28 @@ def writer_calls(m):
     return res
 
 
+def view_order(m):
+    """view_: all argument checks precede the single call of _set_view, which is its last statement;
+    _set_view contains no raise and no error.* call (it cannot fail between unset() and set())."""
+    fn = m.find('Graphics.view_')
+    body = [x for x in fn.body if not (isinstance(x, ast.Expr) and isinstance(x.value, ast.Constant))]
+    if ast.unparse(body[-1]) != 'self._set_view(x0, y0, x1, y1, absolute, fill, border)':
+        refuse(fn, 'view_ does not end with the call of _set_view')
+    srcs = [ast.unparse(x) for x in body]
+    for need in ('error.range_check(0, 255, fill)', 'error.range_check(0, 255, border)',
+                 'error.throw_if(x0 == x1 or y0 == y1)'):
+        if need not in srcs:
+            refuse(fn, 'view_ lacks the top-level check %s' % need)
+    sv = m.find('Graphics._set_view')
+    for n in ast.walk(sv):
+        if isinstance(n, ast.Raise):
+            refuse(n, '_set_view raises')
+        if isinstance(n, ast.Attribute) and isinstance(n.value, ast.Name) and n.value.id == 'error':
+            refuse(n, '_set_view uses error.%s' % n.attr)
+        if isinstance(n, ast.Call) and isinstance(n.func, ast.Attribute) and n.func.attr.startswith('to_'):
+            refuse(n, '_set_view converts a value (%s) and may raise' % n.func.attr)
+
+
 def guard_first(m, name):
     fn = m.find('Graphics.' + name)
     body = [s for s in fn.body if not (isinstance(s, ast.Expr) and isinstance(s.value, ast.Constant)
@@ -406,6 +433,13 @@ def generate(repo):
                             'x0': 'Z', 'y0': 'Z', 'x1': 'Z', 'y1': 'Z'},
                stmts=(r'^error\.range_check\(0, self\._mode\.pixel_width-1, x0, x1\)$',
                       r'^error\.throw_if\(x0==x1 or y0 == y1\)$'), force_monadic=True)
+    # ... and of the fill and border attributes (None = omitted), which must also happen in view_, i.e. before
+    # _set_view touches the viewport or draws: _set_view itself must not be able to raise
+    t.function('Graphics.view_', coqname='raster_view_attr_checks',
+               param_types={'fill': 'option Z', 'border': 'option Z'},
+               stmts=(r'^error\.range_check\(0, 255, fill\)$', r'^error\.range_check\(0, 255, border\)$'),
+               force_monadic=True)
+    view_order(m)
     # request generators
     t.funcs = {}
     # the single write of PSET/PRESET (last statement of _pset_preset)
